@@ -13,6 +13,8 @@ package witness
 import (
 	"bufio"
 	"net"
+	"sync"
+	"sync/atomic"
 	"testing"
 	"time"
 
@@ -119,12 +121,21 @@ func TestC12_CloseDuringConnect(t *testing.T) {
 				break
 			}
 		}
-		time.Sleep(2 * time.Millisecond)
-		c.Close()
-		select {
-		case <-done:
-		case <-time.After(5 * time.Second):
-			t.Fatal("connect did not return")
+		// Keep closing until Connect returns: on a loaded machine the connect goroutine may
+		// not even have started when the loop above is over, and a Close before c.stop is
+		// assigned is a no-op.
+		deadline := time.After(30 * time.Second)
+	wait:
+		for {
+			select {
+			case <-done:
+				break wait
+			case <-deadline:
+				t.Fatal("connect did not return")
+			default:
+				c.Close()
+				time.Sleep(time.Millisecond)
+			}
 		}
 		in.Close()
 	}
@@ -150,4 +161,57 @@ func TestC12_FingerAfterDisconnect(t *testing.T) {
 	// The bare goroutine cannot be recovered from here; give it time to run. On the unrepaired
 	// tree the test binary dies with "invalid memory address or nil pointer dereference".
 	time.Sleep(300 * time.Millisecond)
+}
+
+// slug uptime-conn-nil-after-check (NOT repaired yet: named TestPending..., not run by bin/check;
+// patch in notes/proposed-fixes/C12-uptime-conn-nil-after-check.diff).  Uptime and ConnSince check
+// IsConnected() and read c.conn in a second critical section; a teardown in between leaves c.conn
+// nil.  Pollers call both while connections are set up and closed; a recovered panic is the failure.
+func TestPendingC12_UptimeDuringTeardown(t *testing.T) {
+	for cycle := 0; cycle < 60; cycle++ {
+		c := locksClient()
+		in, done := locksMock(c)
+		var stop int32
+		panicked := make(chan interface{}, 16)
+		var wg sync.WaitGroup
+		for g := 0; g < 8; g++ {
+			wg.Add(1)
+			go func() {
+				defer wg.Done()
+				defer func() {
+					if p := recover(); p != nil {
+						panicked <- p
+					}
+				}()
+				for atomic.LoadInt32(&stop) == 0 {
+					_, _ = c.Uptime()
+					_, _ = c.ConnSince()
+				}
+			}()
+		}
+		time.Sleep(2 * time.Millisecond)
+		c.Close()
+		select {
+		case p := <-panicked:
+			atomic.StoreInt32(&stop, 1)
+			t.Fatalf("cycle %d: Uptime/ConnSince panicked during the teardown: %v", cycle, p)
+		case <-done:
+		case <-time.After(30 * time.Second):
+			atomic.StoreInt32(&stop, 1)
+			select {
+			case p := <-panicked:
+				t.Fatalf("cycle %d: Uptime/ConnSince panicked (%v) with Client.mu still read-locked: Connect never returns", cycle, p)
+			default:
+				t.Fatal("connect did not return")
+			}
+		}
+		atomic.StoreInt32(&stop, 1)
+		wg.Wait()
+		in.Close()
+		select {
+		case p := <-panicked:
+			t.Fatalf("cycle %d: Uptime/ConnSince panicked during the teardown: %v", cycle, p)
+		default:
+		}
+	}
 }
